@@ -252,6 +252,7 @@ class Report:
         self.violations = []   # (key, description, replay dict)
         self.broken = []       # (what, detail)
         self.distinct = set()
+        self.replay_of = None  # path of the replay file being re-executed (./check --replay)
 
     def add_proof(self, n, ok, details, cmd):
         self.cov["obligations"] += n
@@ -291,7 +292,8 @@ class Report:
                 lines.append("KNOWN-FINDING: property=%s %s" % (self.pid, hit[0][2]))
                 continue
             reported += 1
-            path = os.path.join(VERIF, "replays", "%s-%s-%d.json" % (self.pid, re.sub(r"[^A-Za-z0-9_.-]", "_", key)[:60], self.seed))
+            path = os.path.join(VERIF, "replays", "%s-%s-%d%s.json" % (self.pid, re.sub(r"[^A-Za-z0-9_.-]", "_", key)[:60], self.seed,
+                                                                        ".replayed" if self.replay_of else ""))
             with open(path, "w") as f:
                 json.dump({"property": self.pid, "seed": self.seed, "tier": self.tier, "key": key,
                            "description": desc, "replay": replay}, f, indent=1)
@@ -307,7 +309,8 @@ class Report:
                 continue
             seen_broken.add(what)
             reported += 1
-            path = os.path.join(VERIF, "replays", "%s-broken-%s-%d.json" % (self.pid, re.sub(r"[^A-Za-z0-9_.-]", "_", what)[:60], self.seed))
+            path = os.path.join(VERIF, "replays", "%s-broken-%s-%d%s.json" % (self.pid, re.sub(r"[^A-Za-z0-9_.-]", "_", what)[:60], self.seed,
+                                                                               ".replayed" if self.replay_of else ""))
             with open(path, "w") as f:
                 json.dump({"property": self.pid, "seed": self.seed, "tier": self.tier,
                            "no_longer_checks": what, "detail": detail,
@@ -319,10 +322,15 @@ class Report:
               "coverage": self.cov, "assumptions": self.assumptions,
               "wall_s": round(time.time() - self.t0, 2), "violations": reported}
         os.makedirs(os.path.join(VERIF, "evidence"), exist_ok=True)
-        with open(os.path.join(VERIF, "evidence", self.pid + ".json"), "w") as f:
+        if self.replay_of:
+            ev["replay_of"] = self.replay_of
+        # a replay run describes one input, not the check's coverage: it does not overwrite the evidence file
+        with open(os.path.join(VERIF, "evidence", self.pid + (".replay.json" if self.replay_of else ".json")), "w") as f:
             json.dump(ev, f, indent=1, default=str)
         for l in lines:
             print(l)
+        if self.replay_of:
+            print("REPLAY property=%s file=%s %s" % (self.pid, self.replay_of, "REPRODUCED" if rc else "not-reproduced"))
         sys.stdout.flush()
         return rc
 
